@@ -132,6 +132,8 @@ class Func(object):
                     self._expanded = self.raw_node
             if not os.environ.get('VERIF_NO_FOLD'):
                 self._expanded = fold_return_temps(self._expanded)
+            if not os.environ.get('VERIF_NO_COMPSCOPE'):
+                self._expanded = scope_comprehension_vars(self._expanded)
         return self._expanded
 
     @property
@@ -559,6 +561,65 @@ class Index(object):
                 txt = fh.read()
         self.consulted.add(relpath)
         return txt
+
+
+def scope_comprehension_vars(fnode):
+    """A variable bound by a comprehension lives in the comprehension's own scope: `for cid in xs: ...` and, later,
+    `[f(cid) for cid in ys]` are two variables.  Readings of a function by name (flow-insensitive environments) would join
+    them, so a comprehension variable that shares its name with a function-level local or parameter gets a fresh name.
+    Returns ``fnode`` itself when nothing collides (a copy otherwise)."""
+    import copy
+    comps = (ast.ListComp, ast.SetComp, ast.GeneratorExp, ast.DictComp)
+
+    def function_level(node):
+        out = {a.arg for a in node.args.posonlyargs + node.args.args + node.args.kwonlyargs}
+        if node.args.vararg:
+            out.add(node.args.vararg.arg)
+        if node.args.kwarg:
+            out.add(node.args.kwarg.arg)
+        todo = list(node.body)
+        while todo:
+            n = todo.pop()
+            if isinstance(n, comps + (ast.FunctionDef, ast.AsyncFunctionDef, ast.Lambda, ast.ClassDef)):
+                if isinstance(n, comps):
+                    todo.extend(ast.iter_child_nodes(n.generators[0].iter))
+                    if isinstance(n.generators[0].iter, ast.Name):
+                        pass
+                continue
+            if isinstance(n, ast.Name) and isinstance(n.ctx, (ast.Store, ast.Del)):
+                out.add(n.id)
+            todo.extend(ast.iter_child_nodes(n))
+        return out
+    level = function_level(fnode)
+    if not level:
+        return fnode
+    hit = False
+    for c in ast.walk(fnode):
+        if isinstance(c, comps) and any(isinstance(n, ast.Name) and n.id in level for g in c.generators for n in ast.walk(g.target)):
+            hit = True
+            break
+    if not hit:
+        return fnode
+    new = copy.deepcopy(fnode)
+    allnames = {n.id for n in ast.walk(new) if isinstance(n, ast.Name)} | level
+    for c in ast.walk(new):
+        if not isinstance(c, comps):
+            continue
+        bound = {n.id for g in c.generators for n in ast.walk(g.target) if isinstance(n, ast.Name)}
+        ren = {}
+        for b in sorted(bound & level):
+            k = b + '_'
+            while k in allnames:
+                k += '_'
+            ren[b] = k
+            allnames.add(k)
+        if not ren:
+            continue
+        outer = {id(n) for n in ast.walk(c.generators[0].iter)}
+        for n in ast.walk(c):
+            if isinstance(n, ast.Name) and n.id in ren and id(n) not in outer:
+                n.id = ren[n.id]
+    return new
 
 
 def fold_return_temps(fnode):
